@@ -17,7 +17,6 @@ package redis
 import (
 	"errors"
 	"strconv"
-	"strings"
 	"time"
 
 	"github.com/cybergarage/go-redis/redis/proto"
@@ -98,7 +97,7 @@ func (server *Server) registerCoreExecutors() {
 			}
 		}
 
-		switch strings.ToUpper(opt) {
+		switch upperASCII(opt) {
 		case "SET":
 			params, err := nextStringMapArguments(cmd, args)
 			if err != nil {
@@ -587,7 +586,7 @@ func (server *Server) registerCoreExecutors() {
 		param, err := args.NextString()
 		for err == nil {
 			isOption := true
-			switch strings.ToUpper(param) {
+			switch upperASCII(param) {
 			case "NX":
 				opt.NX = true
 			case "XX":
